@@ -311,7 +311,15 @@ impl<V: Val, S: StratExt<V>> Worker<V, S> {
         sched::take_marks();
         runner::set_in_call(true);
         let (bl, bw) = self.budgets.get();
-        sched::op_begin(if is_load { bl } else { bw });
+        // reads are wait-free under every schedule; writes are lock-free (symmetry broken after
+        // SOFT_LIMIT steps in TOKEN mode) and unbounded under real contention in FREE mode
+        if is_load {
+            sched::op_begin_ext(bl, 8, false);
+        } else if sched::mode() == Mode::Token {
+            sched::op_begin_ext(bw, 9, true);
+        } else {
+            sched::op_begin_ext(u32::MAX, 9, false);
+        }
         let r = f();
         let steps = sched::op_steps();
         self.last_steps.set(steps);
